@@ -4,7 +4,7 @@
    Part 3: deferred reference setters end up writing what an oracle would have written at once.
    Part 4: the shape of the iterator's call tree.
    Part 5: marshal + unmarshal gives an isomorphic heap.
-   Part 6: the validator's single marker slot. *)
+   Part 6: the validator's marker bookkeeping accepts every call tree. *)
 From CE Require Import Model.Graph.
 From Coq Require Import ZifyN ZifyNat ZifyBool Lia.
 Open Scope N_scope.
@@ -3147,16 +3147,164 @@ Qed.
 Lemma reach_none h a : reach h None a -> False.
 Proof. intro H. induction H; [discriminate | assumption]. Qed.
 
-(* unmarshal(marshal(h)) when the validator is switched off *)
-Theorem graph_roundtrip_iso_norules h dups root :
+(* ------------------------------------------------------------------------- *)
+(* Part 6: the validator's marker bookkeeping accepts every call tree           *)
+
+Definition top_ok (stk : list vframe) : Prop := match stk with VMarker _ :: _ => False | _ => True end.
+
+Lemma vrun_app s es1 es2 :
+  vrun s (es1 ++ es2) = match vrun s es1 with Some s' => vrun s' es2 | None => None end.
+Proof.
+  revert s. induction es1 as [|e es1 IH]; intro s; simpl; [reflexivity|].
+  destruct (vstep s e); [apply IH | reflexivity].
+Qed.
+
+Lemma v_scalar_top s : top_ok (v_stack s) -> v_scalar s = Some s.
+Proof. unfold v_scalar. destruct (v_stack s) as [|[|id] r]; simpl; intro H; try reflexivity. contradiction. Qed.
+Lemma v_ended_top s : top_ok (v_stack s) -> v_ended s = Some s.
+Proof. unfold v_ended. destruct (v_stack s) as [|[|id] r]; simpl; intro H; try reflexivity. contradiction. Qed.
+
+Lemma vrun_labels l stk slot marked fwd rest :
+  top_ok stk -> vrun (mkV stk slot marked fwd) (label_events l ++ rest) = vrun (mkV stk slot marked fwd) rest.
+Proof.
+  intro H. destruct l; simpl; try reflexivity; rewrite v_scalar_top by exact H; reflexivity.
+Qed.
+
+Lemma vrun_kind_begin k stk slot marked fwd rest :
+  vrun (mkV stk slot marked fwd) (kind_events k ++ rest) = vrun (mkV (VContainer :: stk) slot marked fwd) rest.
+Proof. destruct k; simpl; reflexivity. Qed.
+
+Lemma In_bremove x y l : In x (bremove y l) -> In x l /\ x <> y.
+Proof.
+  unfold bremove. intro H. apply filter_In in H. destruct H as [H1 H2]. split; [exact H1|].
+  intros ->. rewrite bytes_eqb_refl in H2. discriminate.
+Qed.
+
+Definition VGoal (t : tm) : Prop :=
+  forall stk slot marked fwd rest,
+    is_omit t = false -> top_ok stk -> NoDup (tm_bids t) ->
+    (forall id, In id (tm_bids t) -> bmem id marked = false) ->
+    (forall id, In id fwd -> bmem id marked = false) ->
+    exists slot' marked' fwd',
+      vrun (mkV stk slot marked fwd) (flatten t ++ rest) = vrun (mkV stk slot' marked' fwd') rest /\
+      (forall id, bmem id marked' = bmem id (tm_bids t) || bmem id marked) /\
+      (forall id, In id fwd' -> bmem id marked' = false /\ (In id fwd \/ In id (tm_rids t))).
+
+Lemma vrun_kids kids :
+  Forall (fun lt : label * tm => VGoal (snd lt)) kids ->
+  forall stk slot marked fwd rest,
+    NoDup (kids_bids kids) ->
+    (forall id, In id (kids_bids kids) -> bmem id marked = false) ->
+    (forall id, In id fwd -> bmem id marked = false) ->
+    exists slot' marked' fwd',
+      vrun (mkV (VContainer :: stk) slot marked fwd) (kids_events kids ++ rest) =
+      vrun (mkV (VContainer :: stk) slot' marked' fwd') rest /\
+      (forall id, bmem id marked' = bmem id (kids_bids kids) || bmem id marked) /\
+      (forall id, In id fwd' -> bmem id marked' = false /\
+                                (In id fwd \/ In id (flat_map (fun lt : label * tm => tm_rids (snd lt)) kids))).
+Proof.
+  induction kids as [|[l t] ks IHl]; intros HG stk slot marked fwd rest Hnd Hun Hfw.
+  - exists slot, marked, fwd. simpl. repeat split; auto.
+  - inversion HG as [|x xs Hx Hxs]; subst. simpl in Hx.
+    unfold kids_bids in Hnd, Hun. simpl in Hnd, Hun. fold (kids_bids ks) in Hnd, Hun.
+    unfold kids_events. simpl. fold (kids_events ks). destruct (is_omit t) eqn:Eo.
+    + assert (t = TOmit) by (apply is_omit_true; exact Eo). subst t. simpl in Hnd, Hun.
+      destruct (IHl Hxs stk slot marked fwd rest Hnd Hun Hfw) as [sl' [mk' [fw' [E [Hm Hf]]]]].
+      exists sl', mk', fw'. simpl. split; [exact E|]. split; [exact Hm|]. exact Hf.
+    + rewrite <- !app_assoc. rewrite vrun_labels by exact I.
+      destruct (Hx (VContainer :: stk) slot marked fwd (kids_events ks ++ rest) Eo I) as [sl1 [mk1 [fw1 [E1 [Hm1 Hf1]]]]].
+      { eapply NoDup_app_l; eauto. }
+      { intros id Hid. apply Hun. apply in_or_app. left. exact Hid. }
+      { exact Hfw. }
+      rewrite E1.
+      destruct (IHl Hxs stk sl1 mk1 fw1 rest) as [sl' [mk' [fw' [E [Hm Hf]]]]].
+      { eapply NoDup_app_r; eauto. }
+      { intros id Hid. rewrite Hm1. rewrite bmem_false; [apply Hun; apply in_or_app; right; exact Hid|].
+        intro Hin. exact (NoDup_app_disj _ _ _ Hnd Hin Hid). }
+      { intros id Hid. apply (Hf1 id Hid). }
+      exists sl', mk', fw'. split; [exact E|]. split.
+      * intro id. rewrite Hm, Hm1. unfold kids_bids. simpl. fold (kids_bids ks). rewrite bmem_app.
+        destruct (bmem id (kids_bids ks)), (bmem id (tm_bids t)); reflexivity.
+      * intros id Hid. destruct (Hf id Hid) as [Ha [Hb|Hb]].
+        -- split; [exact Ha|]. destruct (Hf1 id Hb) as [_ [Hc|Hc]]; [left; exact Hc | right; apply in_or_app; left; exact Hc].
+        -- split; [exact Ha|]. right. apply in_or_app. right. exact Hb.
+Qed.
+
+Lemma vrun_tree t : VGoal t.
+Proof.
+  induction t as [| |id|a m k kids IHk] using tm_ind'; intros stk slot marked fwd rest Ho Ht Hnd Hun Hfw.
+  - discriminate.
+  - exists slot, marked, fwd. simpl. rewrite v_scalar_top by exact Ht. repeat split; auto.
+  - simpl. destruct stk as [|[|id1] r]; try contradiction; simpl.
+    + destruct (bmem (dec_bytes id) marked) eqn:E; eexists; eexists; eexists; (split; [reflexivity|]); (split; [reflexivity|]).
+      * intros id0 Hin. auto.
+      * intros id0 [<-|Hin]; [split; [exact E | right; left; reflexivity]|].
+        apply In_bremove in Hin. destruct Hin as [Hin _]. split; [apply Hfw; exact Hin | left; exact Hin].
+    + destruct (bmem (dec_bytes id) marked) eqn:E; eexists; eexists; eexists; (split; [reflexivity|]); (split; [reflexivity|]).
+      * intros id0 Hin. auto.
+      * intros id0 [<-|Hin]; [split; [exact E | right; left; reflexivity]|].
+        apply In_bremove in Hin. destruct Hin as [Hin _]. split; [apply Hfw; exact Hin | left; exact Hin].
+  - rewrite tm_bids_node in Hnd, Hun |- *. destruct m as [id|].
+    + (* a marked object *)
+      simpl app in Hnd, Hun. inversion Hnd as [|? ? Hnotin Hnd']; subst.
+      change (flatten (TNode a (Some id) k kids)) with (EMarker (dec_bytes id) :: kind_events k ++ kids_events kids ++ [EEnd]).
+      cbn [app vrun vstep v_stack v_marked v_fwd].
+      assert (Hstep : (match stk with VMarker _ :: _ => None | _ => Some (mkV (VMarker (dec_bytes id) :: stk) (dec_bytes id) marked fwd) end)
+                      = Some (mkV (VMarker (dec_bytes id) :: stk) (dec_bytes id) marked fwd)).
+      { destruct stk as [|[|id1] r]; try reflexivity. contradiction. }
+      rewrite Hstep. rewrite <- !app_assoc. rewrite vrun_kind_begin.
+      destruct (vrun_kids kids IHk (VMarker (dec_bytes id) :: stk) (dec_bytes id) marked fwd ([EEnd] ++ rest) Hnd')
+        as [sl' [mk' [fw' [E [Hm Hf]]]]].
+      { intros id0 Hid. apply Hun. right. exact Hid. }
+      { exact Hfw. }
+      fold (kids_events kids). rewrite E. cbn [app vrun vstep v_stack v_ended v_slot v_marked v_fwd].
+      unfold v_mark. cbn [v_stack v_slot v_marked v_fwd].
+      assert (Hfresh : bmem (dec_bytes id) mk' = false).
+      { rewrite Hm, (bmem_false _ _ Hnotin), (Hun (dec_bytes id) (or_introl eq_refl)). reflexivity. }
+      rewrite Hfresh.
+      exists (dec_bytes id), (dec_bytes id :: mk'), (bremove (dec_bytes id) fw').
+      split; [reflexivity|]. split.
+      * intro id0. simpl. rewrite Hm. destruct (bytes_eqb id0 (dec_bytes id)); reflexivity.
+      * intros id0 Hin. apply In_bremove in Hin. destruct Hin as [Hin Hne].
+        destruct (Hf id0 Hin) as [Ha Hb]. split; [|exact Hb].
+        simpl. rewrite Ha, bytes_eqb_neq by exact Hne. reflexivity.
+    + simpl app in Hnd, Hun.
+      change (flatten (TNode a None k kids)) with (kind_events k ++ kids_events kids ++ [EEnd]).
+      rewrite <- !app_assoc. rewrite vrun_kind_begin.
+      destruct (vrun_kids kids IHk stk slot marked fwd ([EEnd] ++ rest) Hnd Hun Hfw) as [sl' [mk' [fw' [E [Hm Hf]]]]].
+      fold (kids_events kids). rewrite E. cbn [app vrun vstep v_stack v_slot v_marked v_fwd].
+      rewrite v_ended_top by exact Ht.
+      exists sl', mk', fw'. split; [reflexivity|]. split; [exact Hm | exact Hf].
+Qed.
+
+(* the validator accepts the document of a tree whose marker ids are distinct and whose references
+   all name a marker of the tree *)
+Lemma vmark_doc t :
+  is_omit t = false -> NoDup (tm_bids t) -> (forall b, In b (tm_rids t) -> In b (tm_bids t)) ->
+  vmark (doc_events t) = true.
+Proof.
+  intros Ho Hnd Hcl. unfold vmark, doc_events. cbn [vrun vstep].
+  destruct (vrun_tree t [] [] [] [] [EEndDoc] Ho I Hnd) as [sl' [mk' [fw' [E [Hm Hf]]]]].
+  { intros; reflexivity. } { intros id []. }
+  unfold vst0. rewrite E. cbn [vrun vstep v_fwd].
+  assert (Hnil : fw' = []).
+  { destruct fw' as [|x fw']; [reflexivity|]. exfalso.
+    destruct (Hf x (or_introl eq_refl)) as [Ha [[]|Hb]].
+    rewrite Hm in Ha. rewrite (proj2 (bmem_In _ _) (Hcl _ Hb)) in Ha. discriminate. }
+  rewrite Hnil. reflexivity.
+Qed.
+
+(* ------------------------------------------------------------------------- *)
+(* unmarshal(marshal(h)), validator on or off *)
+Theorem graph_roundtrip_iso rules h dups root :
   typed h root = true -> closed h root = true -> no_empty_containers h = true ->
   cover_ok h dups = true -> indeg_ok h root dups = true -> N.of_nat (length dups) < 4294967296 ->
-  exists h' root' phi, graph_roundtrip false false h dups root = RtOk h' root' /\ iso phi h root h' root'.
+  exists h' root' phi, graph_roundtrip rules false h dups root = RtOk h' root' /\ iso phi h root h' root'.
 Proof.
   intros Hty Hcl Hne Hcov Hin Hsmall.
   destruct root as [root0|].
   2:{ exists [], None, (fun a => a). split.
-      - unfold graph_roundtrip, iterate_graph, iterate_tree. destruct (graph_fuel h dups); reflexivity.
+      - unfold graph_roundtrip, iterate_graph, iterate_tree. destruct (graph_fuel h dups); destruct rules; reflexivity.
       - split; [reflexivity|]. split; [intros a b Ha; exfalso; eapply reach_none; eauto | intros a Ha; exfalso; eapply reach_none; eauto]. }
   destruct (typed_facts _ _ Hty) as [Hkeys [Hnode Hroot]].
   destruct (graph_marshal_terminates h dups false (Some root0) Hcl Hcov) as [t0 [s' Htrav]].
@@ -3168,98 +3316,62 @@ Proof.
     - exact Htrav. }
   destruct (F_main h dups Hnode (nonempty_facts _ Hne) (closed_kids _ _ Hcl) root0 _ t0 s' Hsmall
                    (closed_root _ _ Hcl) Hroot Htrav Hsrcs) as [sr' [Er [Hr Hiso]]].
+  assert (Hv : vmark (doc_events t0) = true).
+  { destruct (F_root_node h dups root0 _ t0 s' (closed_root _ _ Hcl) Htrav Hsrcs) as [m0 [k0 [kids0 Et0]]].
+    apply vmark_doc.
+    - rewrite Et0. reflexivity.
+    - eapply (F_bids_nodup h dups Hnode (nonempty_facts _ Hne) (closed_kids _ _ Hcl)); eauto.
+    - eapply F_rids; eauto. }
   eexists. eexists. eexists. split; [|exact Hiso].
-  unfold graph_roundtrip, iterate_graph, iterate_tree. rewrite Htrav. simpl andb. cbv iota.
+  unfold graph_roundtrip, iterate_graph, iterate_tree. rewrite Htrav. rewrite Hv. rewrite andb_false_r.
   apply build_graph_eff; assumption.
 Qed.
 
 (* ------------------------------------------------------------------------- *)
-(* Part 6: the validator's single marker slot                                  *)
+(* The property in full, and the two witnesses against it *)
+Definition graph_full_statement : Prop :=
+  forall rules omit_never h root,
+    typed h root = true -> closed h root = true ->
+    (omit_never = false -> no_empty_containers h = true) ->
+    exists h' root' phi,
+      graph_roundtrip rules omit_never h (gdups_of h root) root = RtOk h' root' /\ iso phi h root h' root'.
 
-Definition top_ok (stk : list vframe) : Prop := match stk with VMarker :: _ => False | _ => True end.
+Definition sn v a b c s m := mkNode (KStruct v) [(LF 0, a); (LF 1, b); (LF 2, c); (LF 3, s); (LF 4, m)].
+Definition w_nilmap : heap := [(1, sn 1 None None None None None)].
+Definition w_emptymap : heap :=
+  [(1, sn 1 (Some 2) None None None (Some 3)); (2, sn 2 None None None None (Some 3)); (3, mkNode KMap [])].
 
-Lemma vrun_app s es1 es2 :
-  vrun s (es1 ++ es2) = match vrun s es1 with Some s' => vrun s' es2 | None => None end.
+Lemma nil_map_refuted :
+  typed w_nilmap (Some 1) = true /\ closed w_nilmap (Some 1) = true /\
+  graph_roundtrip true true w_nilmap (gdups_of w_nilmap (Some 1)) (Some 1) = RtBuildError.
+Proof. vm_compute. repeat split. Qed.
+
+Lemma empty_map_not_iso :
+  typed w_emptymap (Some 1) = true /\ closed w_emptymap (Some 1) = true /\
+  exists h' root',
+    graph_roundtrip true true w_emptymap (gdups_of w_emptymap (Some 1)) (Some 1) = RtOk h' root' /\
+    forall phi, ~ iso phi w_emptymap (Some 1) h' root'.
 Proof.
-  revert s. induction es1 as [|e es1 IH]; intro s; simpl; [reflexivity|].
-  destruct (vstep s e); [apply IH | reflexivity].
+  split; [vm_compute; reflexivity|]. split; [vm_compute; reflexivity|].
+  eexists. eexists. split; [vm_compute; reflexivity|].
+  intros phi [Hroot [_ Hnodes]].
+  assert (R1 : reach w_emptymap (Some 1) 1) by (apply reach_root; reflexivity).
+  assert (R2 : reach w_emptymap (Some 1) 2).
+  { eapply reach_step with (a := 1) (l := LF 0); [exact R1 | vm_compute; reflexivity | simpl; left; reflexivity]. }
+  simpl in Hroot. injection Hroot as Hp1.
+  destruct (Hnodes 1 R1) as [n [n' [Hn [Hn' [_ Hk]]]]].
+  rewrite <- Hp1 in Hn'. vm_compute in Hn, Hn'. inversion Hn; subst n. inversion Hn'; subst n'.
+  assert (K0 := Hk (LF 0)). vm_compute in K0. injection K0 as K0.
+  assert (K4 := Hk (LF 4)). vm_compute in K4. injection K4 as K4.
+  destruct (Hnodes 2 R2) as [m [m' [Hm [Hm' [_ Hk2]]]]].
+  rewrite <- K0 in Hm'. vm_compute in Hm, Hm'. inversion Hm; subst m. inversion Hm'; subst m'.
+  assert (J4 := Hk2 (LF 4)). vm_compute in J4. injection J4 as J4.
+  rewrite <- K4 in J4. discriminate.
 Qed.
 
-Lemma v_object_top s : top_ok (v_stack s) -> v_object s = Some s.
-Proof. unfold v_object. destruct (v_stack s) as [|[|] r]; simpl; intro H; try reflexivity. contradiction. Qed.
-
-Lemma vrun_labels l stk slot marked fwd rest :
-  top_ok stk -> vrun (mkV stk slot marked fwd) (label_events l ++ rest) = vrun (mkV stk slot marked fwd) rest.
+Lemma graph_full_refuted : ~ graph_full_statement.
 Proof.
-  intro H. destruct l; simpl; try reflexivity; rewrite v_object_top by exact H; reflexivity.
-Qed.
-
-Lemma vrun_kind_begin k stk slot marked fwd rest :
-  vrun (mkV stk slot marked fwd) (kind_events k ++ rest) = vrun (mkV (VContainer :: stk) slot marked fwd) rest.
-Proof.
-  destruct k; simpl; reflexivity.
-Qed.
-
-Lemma tm_marks_node a m k kids :
-  tm_marks (TNode a m k kids) = 0 -> m = None /\ Forall (fun lt : label * tm => tm_marks (snd lt) = 0) kids.
-Proof.
-  cbn [tm_marks]. intro H.
-  assert (Hm : m = None) by (destruct m; [lia | reflexivity]). split; [exact Hm|]. subst m.
-  induction kids as [|lt r IH]; [constructor|]. simpl in H. constructor; [lia | apply IH; simpl; lia].
-Qed.
-
-Lemma bmem_bremove x y l : bmem x (bremove y l) = bmem x l && negb (bytes_eqb y x).
-Proof.
-  unfold bmem, bremove. induction l as [|z l IH]; simpl; [reflexivity|].
-  destruct (bytes_eqb y z) eqn:E; simpl.
-  - rewrite IH. apply bytes_eqb_eq in E. subst z. destruct (bytes_eqb x y) eqn:E2.
-    + apply bytes_eqb_eq in E2. subst. rewrite bytes_eqb_refl. simpl. rewrite andb_false_r. reflexivity.
-    + simpl. reflexivity.
-  - rewrite IH. destruct (bytes_eqb x z) eqn:E2; simpl; [|reflexivity].
-    apply bytes_eqb_eq in E2. subst z. rewrite E. reflexivity.
-Qed.
-Lemma In_bremove x y l : In x (bremove y l) -> In x l /\ x <> y.
-Proof.
-  unfold bremove. intro H. apply filter_In in H. destruct H as [H1 H2]. split; [exact H1|].
-  intros ->. rewrite bytes_eqb_refl in H2. discriminate.
-Qed.
-
-(* a tree without markers: stack, slot and marked set come back unchanged *)
-Lemma vrun_nomark t : forall stk slot marked fwd rest,
-  tm_marks t = 0 -> is_omit t = false -> top_ok stk ->
-  exists fwd', vrun (mkV stk slot marked fwd) (flatten t ++ rest) = vrun (mkV stk slot marked fwd') rest /\
-    forall id, In id fwd' -> In id fwd \/ (In id (tm_rids t) /\ bmem id marked = false).
-Proof.
-  induction t as [| |id|a m k kids IHk] using tm_ind'; intros stk slot marked fwd rest Hm Ho Ht.
-  - discriminate.
-  - exists fwd. simpl. rewrite v_object_top by exact Ht. auto.
-  - simpl. destruct stk as [|[|] r]; try contradiction; simpl.
-    + destruct (bmem (dec_bytes id) marked) eqn:E; eexists; (split; [reflexivity|]).
-      * auto.
-      * intros id0 [<-|Hin]; [right; split; [left; reflexivity | exact E] | left; apply In_bremove in Hin; tauto].
-    + destruct (bmem (dec_bytes id) marked) eqn:E; eexists; (split; [reflexivity|]).
-      * auto.
-      * intros id0 [<-|Hin]; [right; split; [left; reflexivity | exact E] | left; apply In_bremove in Hin; tauto].
-  - destruct (tm_marks_node _ _ _ _ Hm) as [-> Hk].
-    change (flatten (TNode a None k kids)) with (kind_events k ++ kids_events kids ++ [EEnd]).
-    rewrite <- !app_assoc. rewrite vrun_kind_begin.
-    assert (Hkids : forall fwd0, exists fwd',
-               vrun (mkV (VContainer :: stk) slot marked fwd0) (kids_events kids ++ EEnd :: rest) =
-               vrun (mkV (VContainer :: stk) slot marked fwd') (EEnd :: rest) /\
-               forall id, In id fwd' -> In id fwd0 \/ (In id (flat_map (fun lt : label * tm => tm_rids (snd lt)) kids) /\ bmem id marked = false)).
-    { clear Hm Ho. induction kids as [|[l t] ks IHl]; intro fwd0.
-      - exists fwd0. simpl. auto.
-      - inversion IHk as [|x xs Hx Hxs]; subst. inversion Hk as [|y ys Hy Hys]; subst. simpl in Hx, Hy.
-        unfold kids_events. simpl. fold (kids_events ks). destruct (is_omit t) eqn:Eo.
-        + destruct (IHl Hxs Hys fwd0) as [fwd' [E Hf]]. exists fwd'. simpl. split; [exact E|].
-          intros id Hin. destruct (Hf id Hin) as [?|[? ?]]; auto. right. split; [apply in_or_app; right; assumption | assumption].
-        + rewrite <- !app_assoc. rewrite vrun_labels by exact I.
-          destruct (Hx (VContainer :: stk) slot marked fwd0 (kids_events ks ++ EEnd :: rest) Hy eq_refl I) as [fwd1 [E1 Hf1]].
-          rewrite E1. destruct (IHl Hxs Hys fwd1) as [fwd' [E Hf]]. exists fwd'. split; [exact E|].
-          intros id Hin. destruct (Hf id Hin) as [Ha|[Ha Hb]].
-          * destruct (Hf1 id Ha) as [?|[? ?]]; auto. right. split; [apply in_or_app; left; assumption | assumption].
-          * right. split; [apply in_or_app; right; assumption | assumption]. }
-    destruct (Hkids fwd) as [fwd' [E Hf]]. simpl ([EEnd] ++ rest). rewrite E.
-    exists fwd'. split; [|exact Hf].
-    simpl. rewrite v_object_top by exact Ht. reflexivity.
+  intro H. destruct (H true true w_nilmap (Some 1)) as [h' [r' [phi [E _]]]];
+    [reflexivity | reflexivity | discriminate |].
+  vm_compute in E. discriminate.
 Qed.
